@@ -38,6 +38,12 @@ func C14(c *core.Ctx) {
 	if site == nil {
 		return
 	}
+	// the QFI given to the encoder is the one of the packet's own PDR (shared with C13 R3)
+	if aa := p.SSAFn(p.Method(pkgFwd, "Gtp5g", "applyAction")); aa != nil {
+		for _, w := range core.Calls(aa, p.Method(pkgFwd, "Gtp5g", "WritePacket")) {
+			qerPerPDR(c, "R3", aa, w)
+		}
+	}
 
 	for _, withExt := range []bool{true, false} {
 		shape := "without-ext"
